@@ -10,7 +10,7 @@ from ptstat import AnalysisError, algebra
 from ptstat.symval import SymObj, Phi, SymRaise, merge
 from ptstat.world import mass_sym
 from .common import world, eq, dict_eq, fsite, raises, folder, _s
-from .C12 import action
+from .C12 import action, action_site
 
 EXPLANATION = (
     "Value graphs of _mix_by_weight_pairs/_mix_by_volume_pairs, of mix_by_weight/mix_by_volume and of "
@@ -132,12 +132,13 @@ def _run(ctx):
 
     # ---- R2 call forms and string forms reach the same helpers ---------------------
     cg = ctx.src.callgraph()
+    aq = lambda role: action(I, w, role).qual
     for caller, callee in (("formulas.mix_by_weight", "formulas._mix_by_weight_pairs"),
                            ("formulas.mix_by_volume", "formulas._mix_by_volume_pairs"),
-                           ("formulas.formula_grammar.convert_by_weight", "formulas._mix_by_weight_pairs"),
-                           ("formulas.formula_grammar.convert_by_volume", "formulas._mix_by_volume_pairs"),
-                           ("formulas.formula_grammar.convert_by_layer", "formulas._mix_by_volume_pairs"),
-                           ("formulas.formula_grammar.convert_by_absmass", "formulas._mix_by_weight_pairs")):
+                           (aq("convert_by_weight"), "formulas._mix_by_weight_pairs"),
+                           (aq("convert_by_volume"), "formulas._mix_by_volume_pairs"),
+                           (aq("convert_by_layer"), "formulas._mix_by_volume_pairs"),
+                           (aq("convert_by_absmass"), "formulas._mix_by_weight_pairs")):
         import networkx as nx
         ctx.check(caller in cg and callee in cg and nx.has_path(cg, caller, callee), "R2", f"{caller.split('.')[-1]} -> {callee.split('.')[-1]}",
                   f"{caller} no longer delegates to {callee}", fsite(ctx, caller))
@@ -177,7 +178,7 @@ def _run(ctx):
     for mode in ("weight", "volume"):
         act = action(I, w, f"convert_by_{mode}")
         hf = I.global_name("formulas", f"_mix_by_{mode}_pairs")
-        site = fsite(ctx, f"formulas.formula_grammar.convert_by_{mode}")
+        site = action_site(ctx, I, w, f"convert_by_{mode}")
         f1, f2, f3 = comps()
         r = I.call(act, ["<s>", 0, [p1, f1, p2, f2, f3]], {})
         rh = I.call(hf, [[(f1, p1), (f2, p2), (f3, 100 - p1 - p2)]], {})
@@ -193,7 +194,7 @@ def _run(ctx):
         eq(ctx, "R3", f"by {mode}: two parts, remainder goes to the last", I.getattr(r, "atoms")[H], I.getattr(rh, "atoms")[H], site)
     # layers
     act = action(I, w, "convert_by_layer")
-    site = fsite(ctx, "formulas.formula_grammar.convert_by_layer")
+    site = action_site(ctx, I, w, "convert_by_layer")
     hv = I.global_name("formulas", "_mix_by_volume_pairs")
     t1, t2 = sp.symbols("t1 t2", positive=True)
     LU = I.global_name("formulas", "LENGTH_UNITS")
@@ -221,7 +222,7 @@ def _run(ctx):
     ctx.check(one == [inner], "R3", "a single nested layer group passes through", f"returned {_s(one)}", site)
     # absolute masses and volumes
     act = action(I, w, "convert_by_absmass")
-    site = fsite(ctx, "formulas.formula_grammar.convert_by_absmass")
+    site = action_site(ctx, I, w, "convert_by_absmass")
     hw = I.global_name("formulas", "_mix_by_weight_pairs")
     v1, v2 = sp.symbols("v1 v2", positive=True)
     for u1, u2 in (("mg", "kg"), ("g", "ug"), ("ng", "g")):
@@ -264,7 +265,7 @@ def _run(ctx):
     nread = 0
     container_methods = set(dir(list)) | set(dir(dict)) | set(dir(str)) | set(dir(tuple))
     for name in ("convert_by_weight", "convert_by_volume", "convert_by_layer", "convert_by_absmass", "convert_mixture", "convert_compound"):
-        f = ctx.src.func(f"formulas.formula_grammar.{name}")
+        f = ctx.src.func(action(I, w, name).qual)
         for node in ast.walk(f.node):
             if isinstance(node, ast.Attribute) and isinstance(node.ctx, ast.Load) and isinstance(node.value, ast.Name) \
                     and node.attr not in container_methods:
